@@ -250,6 +250,28 @@ def body_constructor(inp, H, W, kind, angle=0.0, angle2=0.0, level="util", omit=
     A, E = {}, {}
     angle_spec, angle2_spec = angle, angle2
     angle, angle2 = _ang_arg(inp, angle), _ang_arg(inp, angle2)
+    if level == "e2e":
+        # end to end through the public constructors (seed C02-n: argument normalisation inside Mask2D.elliptical for axis
+        # ratios > 1): scales, centre, angles and axis ratios concrete, radii symbolic - Mask2D forks on every pixel's decision
+        # (conditions linear in the radii), each pixel is then compared with the documented inequality.
+        oy, ox = inp["origin"]
+        kw = dict(shape_native=(H, W), pixel_scales=(sy, sx), centre=(cy, cx), origin=(oy, ox))
+        fns = {"circular": lambda: aa.Mask2D.circular(radius=r1, **kw),
+               "annular": lambda: aa.Mask2D.circular_annular(inner_radius=r1, outer_radius=r2, **kw),
+               "anti_annular": lambda: aa.Mask2D.circular_anti_annular(inner_radius=r1, outer_radius=r2, outer_radius_2=r3, **kw),
+               "elliptical": lambda: aa.Mask2D.elliptical(major_axis_radius=r1, axis_ratio=q1, angle=angle, **kw),
+               "elliptical_annular": lambda: aa.Mask2D.elliptical_annular(
+                   inner_major_axis_radius=r1, inner_axis_ratio=q1, inner_phi=angle, outer_major_axis_radius=r2,
+                   outer_axis_ratio=q2, outer_phi=angle2, **kw)}
+        mk = hx.attempt(fns[kind])
+        if isinstance(mk, hx.Raised):
+            return {"constructed": mk}, {"constructed": "no exception"}
+        got = np.array(mk.array, dtype=bool)
+        for a in range(H):
+            for b in range(W):
+                A["pixel_%d_%d_masked_iff_not_inequality" % (a, b)] = bool(got[a, b])
+                E["pixel_%d_%d_masked_iff_not_inequality" % (a, b)] = _not(unmasked_spec(inp, H, W, a, b, kind, angle_spec, angle2_spec))
+        return A, E
     if level == "class":
         # composition step: the public constructors must forward exactly (shape, scales, radii, centre) to the kernel
         # whose per-pixel behaviour is decided at level "util", and wrap the returned mask unchanged.
@@ -449,7 +471,7 @@ def band_terms(inp, H, W, kind, angle, angle2):
     return out
 
 
-def case_constructor(ctx, H, W, kind, angle=0.0, angle2=0.0, conc_scales=None, level="util", conc_ratios=None, omit=None):
+def case_constructor(ctx, H, W, kind, angle=0.0, angle2=0.0, conc_scales=None, level="util", conc_ratios=None, omit=None, conc_centre=None):
     if conc_scales is None:
         sy, sx = V.real("sy"), V.real("sx")
         ctx.assume(z3.And(sy.t > 0, sx.t > 0))
@@ -462,7 +484,8 @@ def case_constructor(ctx, H, W, kind, angle=0.0, angle2=0.0, conc_scales=None, l
         ctx.assume(z3.And(*[z3.And(x.t > 0, x.t <= 1) for x in q]))
     else:
         q = [float(conc_ratios[0]), float(conc_ratios[1])]
-    inputs = {"scales": [sy, sx], "centre": [V.real("cy"), V.real("cx")], "origin": [V.real("oy"), V.real("ox")], "radii": r, "ratios": q}
+    centre = [V.real("cy"), V.real("cx")] if conc_centre is None else [float(conc_centre[0]), float(conc_centre[1])]
+    inputs = {"scales": [sy, sx], "centre": centre, "origin": [V.real("oy"), V.real("ox")], "radii": r, "ratios": q}
     angs = {}
     for nm in (angle, angle2):
         if isinstance(nm, str):
@@ -479,6 +502,9 @@ def case_constructor(ctx, H, W, kind, angle=0.0, angle2=0.0, conc_scales=None, l
     kw = {"H": H, "W": W, "kind": kind, "angle": angle, "angle2": angle2, "level": level}
     if omit is not None:
         kw["omit"] = omit
+    if level == "e2e":
+        hx.run_body(ctx, body_constructor, inputs, kw, validate_every=2, tol=1e-9, groups=lambda k: "_".join(k.split("_")[:3]))
+        return
     if level == "util":
         from autoarray.mask import mask_2d_util as mu
         real = getattr(mu.elliptical_radius_from, "__wrapped_kernel__", mu.elliptical_radius_from)
@@ -566,6 +592,10 @@ def cases(tier):
         for kind in ("circular", "annular", "anti_annular", "elliptical", "elliptical_annular"):
             out.append(("case_constructor", {"H": H, "W": W, "kind": kind, "angle": 30.0, "angle2": 45.0, "conc_scales": None, "level": "class"}))
             if (H, W) == (2, 3):
+                for nq, qq in enumerate([(0.5, 0.75), (1.5, 2.0), (2.0, 0.5)] if tier == "quick" else [(0.5, 0.75), (1.5, 2.0), (2.0, 0.5), (1.0, 1.0), (4.0, 1.25)]):
+                    if kind in ("elliptical", "elliptical_annular") or nq == 0:
+                        out.append(("case_constructor", {"H": 3, "W": 3, "kind": kind, "angle": 30.0, "angle2": 120.0, "conc_scales": GRID_SCALES[nq % 3],
+                                                         "level": "e2e", "conc_ratios": qq, "conc_centre": (0.25, -0.5)}))
                 for om in ("centre", "origin", "both"):
                     out.append(("case_constructor", {"H": H, "W": W, "kind": kind, "angle": 30.0, "angle2": 45.0, "conc_scales": None,
                                                      "level": "class", "omit": om}))
@@ -585,5 +615,7 @@ def replay(cand):
         c2["case_kwargs"] = kw
     elif cand["case_fn"] == "case_constructor":
         kw.pop("conc_scales", None)
+        kw.pop("conc_ratios", None)
+        kw.pop("conc_centre", None)
         c2["case_kwargs"] = kw
     return hx.replay_body(body, c2, tol=1e-7)
